@@ -341,7 +341,9 @@ func genCase(t *rapid.T) Case {
 		case "iws":
 			op.N = rapid.SampledFrom([]int{0, 1, 2, 100, 1000, 16384, 16384, 65535, 65535, 1 << 20}).Draw(t, "iws")
 			op.Ack = rapid.Bool().Draw(t, "acknow")
-			if rapid.IntRange(0, 2).Draw(t, "repeated") == 0 {
+			// Only while the relay holds no data: an intermediate value that released
+			// queued frames before the last one takes effect would be a grey area.
+			if held < 0 && rapid.IntRange(0, 1).Draw(t, "repeated") == 0 {
 				op.Rep = true
 				op.First = rapid.SampledFrom([]int{0, 20, 1000, 65535, 70000, 1 << 20}).Draw(t, "iws_first")
 			}
